@@ -50,7 +50,8 @@ type tr struct {
 	selfName string            // Go name of the function when it calls itself (translated with a recursion fuel)
 	selfTy   string            // Lean type of `self` (the function one fuel level below)
 	rangeN   *int              // counter of unrolled `range` statements (shared by sub-translators)
-	methods  map[string]string // method-call-statement parameters: Lean name -> Lean type
+	methods  map[string]string // (unused)
+	localObj map[string]bool   // local variables holding an object (`x := a.Copy()`), represented by the value word
 }
 
 func (t *tr) fail(format string, a ...interface{}) string {
@@ -441,6 +442,13 @@ func (t *tr) expr(e ast.Expr) string {
 		for _, a := range v.Args {
 			args = append(args, t.argExpr(a))
 		}
+		if m, recv, ok := t.localMethod(v); ok {
+			// `x.M(args)` on a local object variable x (represented by its value word): an uninterpreted
+			// function of the current value of x and the arguments
+			margs := append([]string{recv}, t.methodArgs(v.Args)...)
+			t.registerMethod(m, len(margs))
+			return "(" + m + " " + strings.Join(margs, " ") + ")"
+		}
 		if sel, ok := v.Fun.(*ast.SelectorExpr); ok && len(v.Args) > 0 {
 			if r := rootIdent(sel); r != "" && t.params[r] && !isPkgName(r) {
 				var tys []string
@@ -476,6 +484,45 @@ func (t *tr) expr(e ast.Expr) string {
 		return t.funcLit(v)
 	}
 	return t.fail("expression %s", src(e))
+}
+
+// localMethod recognises `x.M(…)` where x is a local variable holding an object as a word (`x := a.Copy()`)
+func (t *tr) localMethod(c *ast.CallExpr) (name, recv string, ok bool) {
+	sel, isSel := c.Fun.(*ast.SelectorExpr)
+	if !isSel {
+		return "", "", false
+	}
+	id, isId := sel.X.(*ast.Ident)
+	if !isId || !t.params[id.Name] || t.types[id.Name] != "uint" || isPkgName(id.Name) || t.localObj == nil || !t.localObj[id.Name] {
+		return "", "", false
+	}
+	return "method_" + sel.Sel.Name, id.Name, true
+}
+
+// arguments of a method of a local object: words, or objects (parameters / receiver) given by their `val`
+func (t *tr) methodArgs(args []ast.Expr) []string {
+	var out []string
+	for _, a := range args {
+		if id, ok := a.(*ast.Ident); ok && t.types[id.Name] == "object" {
+			if m, ok := t.selector(&ast.SelectorExpr{X: id, Sel: ast.NewIdent("val")}); ok {
+				out = append(out, m)
+				continue
+			}
+		}
+		out = append(out, t.argExpr(a))
+	}
+	return out
+}
+
+func (t *tr) registerMethod(m string, arity int) {
+	ty := strings.TrimSuffix(strings.Repeat("Nat → ", arity+1), " → ")
+	if !t.extraSet[m] {
+		t.extraSet[m] = true
+		t.extra = append(t.extra, m)
+		t.extraTy[m] = ty
+	} else if t.extraTy[m] != ty {
+		t.fail("method %s used with different numbers of arguments", m)
+	}
 }
 
 func (t *tr) argExpr(e ast.Expr) string {
@@ -574,7 +621,7 @@ func (t *tr) funcLit(f *ast.FuncLit) string {
 	if t.extraTy == nil {
 		t.extraTy = map[string]string{}
 	}
-	sub := &tr{fn: t.fn, params: map[string]bool{}, extraSet: t.extraSet, extraTy: t.extraTy, assigned: t.assigned, known: t.known, types: map[string]string{}, rangeN: t.rangeN, methods: t.methods, selfName: t.selfName, selfTy: t.selfTy}
+	sub := &tr{fn: t.fn, params: map[string]bool{}, extraSet: t.extraSet, extraTy: t.extraTy, assigned: t.assigned, known: t.known, types: map[string]string{}, rangeN: t.rangeN, methods: t.methods, localObj: t.localObj, selfName: t.selfName, selfTy: t.selfTy}
 	for k, v := range t.params {
 		sub.params[k] = v
 	}
@@ -731,6 +778,11 @@ func (t *tr) stmts(list []ast.Stmt, k []ast.Stmt) string {
 				rhs = t.expr(&ast.BinaryExpr{X: v.Lhs[i], Op: op, Y: v.Rhs[i]})
 			}
 			if v.Tok == token.DEFINE {
+				if c, isCall := v.Rhs[i].(*ast.CallExpr); isCall {
+					if r := rootIdent(c); r != "" && t.types[r] == "object" {
+						t.localObj[name] = true
+					}
+				}
 				ty := t.typeOf(v.Rhs[i])
 				if _, isFn := v.Rhs[i].(*ast.FuncLit); isFn {
 					ty = "func"
@@ -896,6 +948,15 @@ func (t *tr) stmts(list []ast.Stmt, k []ast.Stmt) string {
 		}
 		return t.fail("branch statement %s", src(v))
 	case *ast.ExprStmt:
+		// `x.M(args)` as a statement on a local object variable x: the method may change x (and only x);
+		// x becomes an uninterpreted function of its old value and the arguments
+		if c, ok := v.X.(*ast.CallExpr); ok {
+			if m, recv, ok := t.localMethod(c); ok {
+				margs := append([]string{recv}, t.methodArgs(c.Args)...)
+				t.registerMethod(m, len(margs))
+				return "let " + recv + " : Nat := (" + m + " " + strings.Join(margs, " ") + "); " + t.stmts(rest, k)
+			}
+		}
 		return t.fail("expression statement %s", src(v))
 	}
 	return t.fail("statement %s", src(s))
@@ -923,6 +984,12 @@ func assignedVars(t *tr, list []ast.Stmt) []string {
 					set[id.Name] = true
 				} else if m, ok := mangle(a.X); ok {
 					set[m] = true
+				}
+			case *ast.ExprStmt:
+				if c, ok := a.X.(*ast.CallExpr); ok {
+					if _, recv, ok := t.localMethod(c); ok {
+						set[recv] = true
+					}
 				}
 			}
 			return true
@@ -1078,6 +1145,14 @@ func (t *tr) forLoop(v *ast.ForStmt, rest, k []ast.Stmt) string {
 			case *ast.CallExpr:
 				if mm, ok := mangle(e); ok {
 					occurs[mm] = true
+				}
+				if mm, _, ok := t.localMethod(e); ok {
+					occurs[mm] = true
+					for _, a := range e.Args {
+						if id, ok := a.(*ast.Ident); ok && t.types[id.Name] == "object" {
+							occurs[id.Name+"_val"] = true
+						}
+					}
 				}
 			}
 			return true
@@ -1385,7 +1460,7 @@ func (f *fn) leanName() string {
 }
 
 func newTr(f *fn, known map[string]string, retTypes map[string]string) *tr {
-	t := &tr{fn: f, params: map[string]bool{}, extraSet: map[string]bool{}, extraTy: map[string]string{}, assigned: map[string]bool{}, known: known, types: map[string]string{}, rangeN: new(int), methods: map[string]string{}}
+	t := &tr{fn: f, params: map[string]bool{}, extraSet: map[string]bool{}, extraTy: map[string]string{}, assigned: map[string]bool{}, known: known, types: map[string]string{}, rangeN: new(int), methods: map[string]string{}, localObj: map[string]bool{}}
 	for k, v := range retTypes {
 		if strings.HasPrefix(k, "rets:") {
 			t.types[k] = v
@@ -1587,6 +1662,9 @@ var suffixList = []suffixSpec{
 	{"binfield.Element.Add", "a.val ^= bb.val", "core"},
 	{"binfield.Element.Prod", "res := uint(0)", "core"},
 	{"binfield.Element.Inv", "r0 := a.field.conwayPoly", "core"},
+	{"binfield.Element.Pow", "if a.IsZero()", "core"},
+	{"primefield.Element.Pow", "if a.IsZero()", "core"},
+	{"binfield.Element.Trace", "out := a.Copy()", "core"},
 }
 
 func translateSuffix(f *fn, spec suffixSpec, known map[string]string, retTypes map[string]string) string {
